@@ -183,7 +183,7 @@ def s_tok(tier, seed, out):
     # word joiner, BOM), controls, modifier letters/symbols, other numbers, private use, tag characters
     pool += ["\u00ad", "\u200b", "\u200d", "\u2060", "\ufeff", "\u0000", "\u0007", "\u001f", "\u007f", "\u0085",
              "\u02b0", "\u02c6", "\u00b2", "\u00bd", "\ue000", "\ufffd", "\U000e0001", "\u061c", "\u180e"]
-    pool += [c for c in _srcmine.special_chars() if c not in pool]
+    pool += [c for c in _srcmine.special_chars() + _srcmine.special_letters() if c not in pool]
     for _ in range(20000 if tier != "thorough" else 200000):
         s = "".join(rng.choice(pool) for _ in range(1 + rng.below(14)))
         out.write("tok\t%s\n" % esc(s))
@@ -236,8 +236,13 @@ for _c in _srcmine.special_chars():
     for _v in (_c, _c + " ", " " + _c, " " + _c + " ", _c + _c):
         if _v not in SEPS:
             SEPS.append(_v)
+import vocab as _vocab
 for _l in ORDINARY:              # word-like literals of the language-independent files: ordinary words of every language
-    ORDINARY[_l] += [w for w in _srcmine.mine()["words"] if w not in ORDINARY[_l]]
+    _own = set(x.lower() for x in _vocab.source_literals(_l))      # ... unless the language itself knows the word
+    ORDINARY[_l] += [w for w in _srcmine.mine()["words"] if w not in ORDINARY[_l] and w.lower() not in _own]
+for _c in _srcmine.special_letters():     # letters singled out by the code: inside, before and after ordinary words, and alone
+    for _l in ORDINARY:
+        ORDINARY[_l] += ["gold" + _c + "sh", _c + "at", "con" + _c, _c, _c + _c]
 for _n in _srcmine.sizes(41, 300):
     SEPS += [" " * _n, " " * (_n // 2) + "." + " " * (_n - _n // 2 - 1)]
 DECSEP = {"en": "point", "fr": "virgule", "es": "coma", "pt": "vírgula", "it": "virgola", "de": "Komma", "nl": "komma"}
@@ -367,7 +372,7 @@ def s_lookup(tier, seed, out):
     # of blank, line ends, controls, quotes, punctuation), before, after, around and doubled; look-alike spellings
     affixes = ["\ufeff", "\u200b", "\u200c", "\u200d", "\u2060", "\u00ad", "\u00a0", "\u3000", "\u2028", "\u0085", "\t", "\n", "\r",
                "\r\n", "\u0000", "\u0001", "\u001f", "\u007f", ".", "-", "_", "/", "\"", "'", "\u2019", ",", ";", ":", "(", "\u0301", "\ufe0f"]
-    affixes += [c for c in _srcmine.special_chars() if c not in affixes]
+    affixes += [c for c in _srcmine.special_chars() + _srcmine.special_letters() if c not in affixes]
     for c in ("en", "fr", "es", "pt", "it", "de", "nl"):
         for x in affixes:
             codes += [x + c, c + x, x + c + x, x + x + c, c + x + x, c[0] + x + c[1]]
